@@ -102,6 +102,22 @@ impl DiskCache {
         Ok(state.total_bytes)
     }
 
+    /// Verification hook: the counters and the tracked items (key-sorted, per key in lookup order) under one lock.
+    #[cfg(xet_verif)]
+    #[allow(clippy::type_complexity)]
+    pub fn verif_snapshot(&self) -> Result<(usize, u64, Vec<(Key, ChunkRange, u64, u32, String)>), ChunkCacheError> {
+        let state = self.state.lock()?;
+        let mut keys: Vec<&Key> = state.inner.keys().collect();
+        keys.sort();
+        let mut items = Vec::new();
+        for key in keys {
+            for item in state.inner[key].iter() {
+                items.push((key.clone(), item.range, item.len, item.checksum, item.file_name()?));
+            }
+        }
+        Ok((state.num_items, state.total_bytes, items))
+    }
+
     /// initialize will create a new DiskCache with the capacity and cache root based on the config
     /// the cache file system layout is rooted at the provided config.cache_directory and initialize
     /// will attempt to load any pre-existing cache state into memory.
@@ -240,12 +256,16 @@ impl DiskCache {
         }
 
         loop {
+            #[cfg(xet_verif)]
+            utils::verif::point("cache:get:find");
             let Some(cache_item) = self.find_match(key, range)? else {
                 return Ok(None);
             };
 
             let path = self.item_path(key, &cache_item)?;
 
+            #[cfg(xet_verif)]
+            utils::verif::point("cache:get:open");
             let mut file = match File::open(&path) {
                 Ok(file) => file,
                 Err(e) => match e.kind() {
@@ -258,6 +278,8 @@ impl DiskCache {
             };
 
             if !cache_item.is_verified() {
+                #[cfg(xet_verif)]
+                utils::verif::point("cache:get:verify");
                 let checksum = crc32_from_reader(&mut file)?;
                 if checksum == cache_item.checksum {
                     cache_item.verify();
@@ -271,6 +293,8 @@ impl DiskCache {
 
             let mut file_reader = std::io::BufReader::new(file);
 
+            #[cfg(xet_verif)]
+            utils::verif::point("cache:get:read");
             let Ok(header) = CacheFileHeader::deserialize(&mut file_reader)
                 .debug_error(format!("failed to deserialize cache file header on path: {path:?}"))
             else {
@@ -317,10 +341,16 @@ impl DiskCache {
         }
 
         // check if we already contain the range
+        #[cfg(xet_verif)]
+        utils::verif::point("cache:put:find");
         while let Some(cache_item) = self.find_match(key, range)? {
+            #[cfg(xet_verif)]
+            utils::verif::point("cache:put:validate");
             if self.validate_match(key, range, chunk_byte_indices, data, &cache_item)? {
                 return Ok(());
             }
+            #[cfg(xet_verif)]
+            utils::verif::point("cache:put:find_again");
         }
 
         let header = CacheFileHeader::new(chunk_byte_indices);
@@ -342,11 +372,17 @@ impl DiskCache {
         {
             // write cache item file
             let path = self.item_path(key, &cache_item)?;
+            #[cfg(xet_verif)]
+            utils::verif::point("cache:put:create_temp");
             let mut fw = SafeFileCreator::new(path)?;
             fw.write_all(&header_buf)?;
             fw.write_all(data)?;
+            #[cfg(xet_verif)]
+            utils::verif::point("cache:put:rename");
             fw.close()?;
         }
+        #[cfg(xet_verif)]
+        utils::verif::point("cache:put:commit");
 
         // evict items after ensuring the file write but before committing to cache state
         // to avoid removing new item.
@@ -395,12 +431,18 @@ impl DiskCache {
 
         // remove files after done with modifying in memory state and releasing lock
         for path in overlapping_item_paths {
+            #[cfg(xet_verif)]
+            utils::verif::point("cache:put:remove_overlapped");
             remove_file(&path)?;
         }
         for path in evicted_paths {
+            #[cfg(xet_verif)]
+            utils::verif::point("cache:put:remove_evicted");
             remove_file(&path)?;
             // check and try to remove key path if all items evicted for key
             let dir_path = path.parent().ok_or(ChunkCacheError::Infallible)?;
+            #[cfg(xet_verif)]
+            utils::verif::point("cache:put:rmdir");
             check_remove_dir(dir_path)?;
         }
 
@@ -425,6 +467,8 @@ impl DiskCache {
         // validate stored data
         let path = self.item_path(key, cache_item)?;
 
+        #[cfg(xet_verif)]
+        utils::verif::point("cache:validate:open");
         let Ok(mut file) = File::open(path) else {
             self.remove_item(key, cache_item)?;
             return Ok(false);
@@ -517,6 +561,21 @@ impl DiskCache {
         if num_items == 0 {
             return None;
         }
+        #[cfg(xet_verif)]
+        if let Some(r) = utils::verif::rand_usize() {
+            // simulated draw over a key-sorted view, so HashMap iteration order cannot leak into a replayed run
+            let mut keys: Vec<&Key> = state.inner.keys().collect();
+            keys.sort();
+            let mut idx = r % num_items;
+            for key in keys {
+                let n = state.inner[key].len();
+                if idx < n {
+                    return Some((key.clone(), idx));
+                }
+                idx -= n;
+            }
+            return None;
+        }
         let random_item = rand::random::<usize>() % num_items;
         let mut count = 0;
         for (key, items) in state.inner.iter() {
@@ -530,6 +589,8 @@ impl DiskCache {
 
     /// removes an item from both the in-memory state of the cache and the file system
     fn remove_item(&self, key: &Key, cache_item: &VerificationCell<CacheItem>) -> Result<(), ChunkCacheError> {
+        #[cfg(xet_verif)]
+        utils::verif::point("cache:remove_item:lock");
         {
             let mut state = self.state.lock()?;
             if let Some(items) = state.inner.get_mut(key) {
@@ -552,8 +613,12 @@ impl DiskCache {
         if !path.exists() {
             return Ok(());
         }
+        #[cfg(xet_verif)]
+        utils::verif::point("cache:remove_item:unlink");
         remove_file(&path)?;
         let dir_path = path.parent().ok_or(ChunkCacheError::Infallible)?;
+        #[cfg(xet_verif)]
+        utils::verif::point("cache:remove_item:rmdir");
         check_remove_dir(dir_path)
     }
 
@@ -762,6 +827,8 @@ fn check_remove_dir(dir_path: impl AsRef<Path>) -> Result<(), ChunkCacheError> {
         return Ok(());
     }
     // directory empty, remove it
+    #[cfg(xet_verif)]
+    utils::verif::point("cache:rmdir:key_dir");
     remove_dir(&dir_path)?;
 
     // try to check and remove the prefix dir
